@@ -77,6 +77,11 @@ LengthFamilies == {
   FamH("long_string",           <<34>>, <<97>>, <<34>>, <<>>, <<>>),
   FamH("long_string_escapes",   <<34>>, <<92, 110>>, <<34>>, <<>>, <<>>),
   FamH("long_string_multibyte", <<91, 34>>, <<233, 128512>>, <<34, 93>>, <<>>, <<>>),
+  \* multi-byte characters whose bytes straddle the 64 KiB marks of the input (2-byte characters at odd offsets,
+  \* 3-byte characters at offsets 2 mod 3, 4-byte characters at offsets 1 mod 4)
+  FamH("long_string_2byte_odd", <<91, 34, 97>>, <<233>>, <<34, 93>>, <<>>, <<>>),
+  FamH("long_string_3byte",     <<91, 34>>, <<8364>>, <<34, 93>>, <<>>, <<>>),
+  FamH("long_key_4byte",        <<123, 34, 97>>, <<128512>>, <<34, 58, 49, 125>>, <<>>, <<>>),
   FamH("long_string_unclosed",  <<34>>, <<92, 117, 48, 48, 52, 49>>, <<>>, <<>>, <<>>),
   FamH("long_key",              <<123, 34>>, <<107>>, <<34, 58, 49, 125>>, <<>>, <<>>),
   FamH("long_integer",          <<49>>, <<48>>, <<>>, <<>>, <<>>),
@@ -91,4 +96,6 @@ LengthFamilies == {
   FamH("many_literals",         <<91, 116, 114, 117, 101>>, <<44, 102, 97, 108, 115, 101, 44, 110, 117, 108, 108>>, <<93>>, <<>>, <<>>)
 }
 AllAndLength == AllFamilies \cup LengthFamilies
+\* the families that matter for acceptance through the byte-slice entry point (C01): long inputs of multi-byte characters
+StraddleFamilies == {fam \in LengthFamilies : fam.name \in {"long_string_2byte_odd", "long_string_3byte", "long_key_4byte", "long_string_multibyte"}}
 =============================================================================
